@@ -589,7 +589,140 @@ func init() {
 		}
 		isoFamily(c, n)
 		isoSame(c, 3)
+		isoShared(c)
 	}})
+}
+
+// ---- morphisms that share a nested morphism ------------------------------------
+
+type isoW struct {
+	A  int32
+	p1 int8
+	B  int32
+	C  int32
+	p2 int16
+	D  int32
+	E  int32
+	F  int32
+}
+
+type isoV struct {
+	F  int32
+	q1 int8
+	E  int32
+	D  int32
+	C  int32
+	q2 int64
+	B  int32
+	A  int32
+}
+
+func fillW(p *isoW, k int) {
+	b := int32(100 * (k + 1))
+	*p = isoW{A: b + 1, p1: int8(k), B: b + 2, C: b + 3, p2: int16(k), D: b + 4, E: b + 5, F: b + 6}
+}
+func fillV(p *isoV, k int) {
+	b := int32(-100 * (k + 1))
+	*p = isoV{A: b - 1, q1: int8(k), B: b - 2, C: b - 3, q2: int64(k), D: b - 4, E: b - 5, F: b - 6}
+}
+
+func wField(p *isoW, i int) *int32 { return []*int32{&p.A, &p.B, &p.C, &p.D, &p.E, &p.F}[i] }
+func vField(p *isoV, i int) *int32 { return []*int32{&p.A, &p.B, &p.C, &p.D, &p.E, &p.F}[i] }
+
+// isoShared: a morphism used as an entry of several other morphisms. Every base morphism over 1..4 distinct isos
+// (in every order) is built once and then used as the leading (and as the trailing) entry of two further morphisms
+// with one more iso each; all of them are constructed first and evaluated afterwards, base last, so that a
+// construction that scribbles on a morphism built earlier is seen.
+func isoShared(c *Ctx) {
+	names := []string{"A", "B", "C", "D", "E", "F"}
+	var isos []optics.Isomorphism[isoW, isoV]
+	for _, n := range names {
+		isos = append(isos, optics.Iso(optics.ForProduct1[isoW, int32](n), optics.ForProduct1[isoV, int32](n)))
+	}
+	eval := func(label string, m optics.Isomorphism[isoW, isoV], cover uint) bool {
+		c.R.Evaluations++
+		w, v := newBox(fillW, 1), newBox(fillV, 2)
+		w0, v0 := twinOf(w), twinOf(v)
+		if pn := catch(func() { m.Forward(&w.v, &v.v) }); pn != nil {
+			c.Viol("morphism-panic", "%s.Forward panicked: %v", label, short(pn))
+			return false
+		}
+		for i := range names {
+			if cover&(1<<i) != 0 {
+				*vField(&v0.v, i) = *wField(&w0.v, i)
+			}
+		}
+		if d := diff(w, w0); d != "" {
+			c.Viol("forward-source", "%s.Forward changed the source: %s", label, d)
+			return false
+		}
+		if d := diff(v, v0); d != "" {
+			c.Viol("forward-target", "%s.Forward: target differs from copying exactly its foci: %s", label, d)
+			return false
+		}
+		w2 := newBox(fillW, 0)
+		w20 := twinOf(w2)
+		if pn := catch(func() { m.Inverse(&v.v, &w2.v) }); pn != nil {
+			c.Viol("morphism-panic", "%s.Inverse panicked: %v", label, short(pn))
+			return false
+		}
+		for i := range names {
+			if cover&(1<<i) != 0 {
+				*wField(&w20.v, i) = *wField(&w0.v, i)
+			}
+		}
+		if d := diff(w2, w20); d != "" {
+			c.Viol("inverse", "%s: Forward then Inverse does not restore exactly the source foci: %s", label, d)
+			return false
+		}
+		return true
+	}
+	var rec func(p []int, used uint)
+	rec = func(p []int, used uint) {
+		if len(c.R.Viols) > 0 {
+			return
+		}
+		if len(p) > 0 {
+			var list []optics.Isomorphism[isoW, isoV]
+			var ns []string
+			for _, k := range p {
+				list = append(list, isos[k])
+				ns = append(ns, names[k])
+			}
+			bl := "Morphism(" + strings.Join(ns, ", ") + ")"
+			base := optics.Morphism(list...)
+			for d := range names {
+				for e := range names {
+					if used&(1<<d) != 0 || used&(1<<e) != 0 || d == e {
+						continue
+					}
+					m1 := optics.Morphism(base, isos[d])
+					m2 := optics.Morphism(base, isos[e])
+					m3 := optics.Morphism(isos[d], base)
+					m4 := optics.Morphism(nil, base, nil, isos[e])
+					m5 := optics.Morphism(m1, isos[e])
+					ok := eval("Morphism(base, "+names[d]+") with base = "+bl+", after Morphism(base, "+names[e]+") was built", m1, used|1<<d) &&
+						eval("Morphism(base, "+names[e]+") with base = "+bl, m2, used|1<<e) &&
+						eval("Morphism("+names[d]+", base) with base = "+bl, m3, used|1<<d) &&
+						eval("Morphism(nil, base, nil, "+names[e]+") with base = "+bl, m4, used|1<<e) &&
+						eval("Morphism(Morphism(base, "+names[d]+"), "+names[e]+") with base = "+bl, m5, used|1<<d|1<<e) &&
+						eval(bl+" after it was used inside other morphisms", base, used)
+					if !ok {
+						return
+					}
+				}
+			}
+		}
+		if len(p) == 4 {
+			return
+		}
+		for k := range names {
+			if used&(1<<k) == 0 {
+				rec(append(append([]int{}, p...), k), used|1<<k)
+			}
+		}
+	}
+	rec(nil, 0)
 }
 
 // ---- M9: nine fields of nine distinct named types over all layout classes -----
